@@ -39,6 +39,18 @@ theorem gen_constants_eq :
     Gen.C06.errCodeFrameSize = errCodeFrameSize ∧ Gen.C06.errCodeCompression = errCodeCompression ∧
     Gen.C06.frameHeaderLen = frameHeaderLen ∧ Gen.C06.maxFrameSize = maxFrameSize := by decide
 
+/-- T-fact on the reader's state: the receiver fields the read-path methods of `Framer` assign are
+exactly these. `lastHeaderStream` is the model's `Framer.lastHeaderStream`; `errDetail` (error text),
+`lastFrame` (frame invalidation) and `lastFrameType` (used only in an error message) do not influence
+what a later `ReadFrame` returns and are not modelled. A new field written on the read path — e.g. a
+counter that accumulates over the Framer's lifetime — changes the regenerated list and breaks this
+theorem until the model accounts for it. -/
+theorem gen_reader_state_eq :
+    Gen.C06.readerWrittenFields =
+      [("ReadFrameHeader", ["errDetail"]), ("ReadFrameForHeader", ["lastFrame"]), ("ReadFrame", []),
+       ("checkFrameOrder", ["lastFrameType", "lastHeaderStream"]), ("connError", ["errDetail"]),
+       ("readMetaFrame", ["errDetail"])] := by decide
+
 /-- the dispatch of `parseFrame` is the Go table `frameParsers` (absent ⇒ `parseUnknownFrame`). -/
 theorem gen_frameParsers_eq :
     Gen.C06.frameParsers = [(frameData, "parseDataFrame"), (frameHeaders, "parseHeadersFrame"),
